@@ -49,7 +49,8 @@ JOBS = {"quick": 4, "thorough": 16}
 LEVEL_TEXT = (
     "For every configuration of 2-3 (thorough: 2-4) callers over 1-2 keys (cancellers, expiry, limit 1/2, value/exception outcomes) the gate-release orders are explored by "
     "DFS (complete when the tree is below the cap, otherwise cap + random schedules), 4-caller configurations randomly; each execution is checked for "
-    "single-flight, delivery by identity, absence of cancellation inside the wrapped coroutine, honoured caller cancellation and quiescence."
+    "single-flight, delivery by identity, absence of cancellation inside the wrapped coroutine, honoured caller cancellation and quiescence. "
+    "Callers started by the shared invocation itself (task, loop callback, ctx.spawn; while it is in flight and afterwards) are callers like any other."
 )
 LEVEL_NOTE = "Trusted: VirtualLoop + gate scheduler (every explored order is one the production loop can exhibit), the attribution-by-last-released-action rule, the checker in hv/props/c13.py."
 
